@@ -365,6 +365,17 @@ Definition alloc_bound (len : N) : N := ALLOC_K * len + ALLOC_C.
 Definition DEPTH_LIMIT : N := 257.
 Definition depth_bound : N := DEPTH_LIMIT.
 
+(* Stack use predicted from the recursion depth: a base for the non-recursive pipeline and a constant per
+   level of type nesting (the type parsers and, over the parsed type, the typed values recurse once per
+   level).  The two constants are MEASURED on the debug-profile harness (stack high-water mark by fill
+   pattern: base <= 10.6 KB, <= 1.05 KB per level), with margin; they are an assumption of the tie, not
+   derived from the code.  At the depth limit the prediction stays below the 512 KiB of the small stack. *)
+Definition STACK_BASE : N := 16384.
+Definition STACK_PER_LEVEL : N := 1536.
+Definition stack_bound (c : cost) : N := STACK_BASE + STACK_PER_LEVEL * c_depth c.
+Definition STACK_LIMIT : N := STACK_BASE + STACK_PER_LEVEL * DEPTH_LIMIT.
+Definition stack_in_bound (c : cost) (measured : N) : bool := measured <=? stack_bound c.
+
 (* the implementation-side predicates, on measurements: the largest single request is a reservation
    (within the proved bound) or a copy of part of the input; the total of ALL requests - reservations,
    copies, boxes, error values - is allowed the same amount again.  [len] is already multiplied by the
